@@ -206,17 +206,17 @@ theorem Vterm.run_append (v : Vterm) (a b : List Byte) : v.run (a ++ b) = (v.run
 
 /-- transfer of a statement about the reference editor to the terminal, when the
 last key was not Enter -/
-theorem recall_transfer (cap depth : Nat) (hd : 1 ≤ depth) (hd2 : depth ≤ 255) (v0 : Vterm) (r0 : Ref)
+theorem recall_transfer (cap depth : Nat) (hd : 1 ≤ depth) (v0 : Vterm) (r0 : Ref)
     (h0 : VSim cap depth v0 r0) (ks : List Byte) (c : Byte) (hc : c ≠ CR ∧ c ≠ LF) (X : List Byte)
     (hz : (r0.run cap (ks ++ [c])).z = ⟨X, []⟩) :
     (v0.run (ks ++ [c])).state = 2 ∧ (v0.run (ks ++ [c])).rl.line.text = X ∧
     (v0.run (ks ++ [c])).rl.line.cursor = X.length ∧
     (v0.run (ks ++ [c])).rl.curhist = (r0.run cap (ks ++ [c])).browse := by
-  have h1 := run_sim cap depth hd hd2 v0 r0 ks h0
+  have h1 := run_sim cap depth hd v0 r0 ks h0
   have hs : (v0.run (ks ++ [c])).state = 2 := by
     rw [Vterm.run_append]
     exact key_state _ c h1.st hc
-  have h2 := run_sim cap depth hd hd2 v0 r0 (ks ++ [c]) h0
+  have h2 := run_sim cap depth hd v0 r0 (ks ++ [c]) h0
   obtain ⟨e1, e2, e3, _⟩ := editor_of_sim cap depth _ _ h2
   rw [nrl_two _ hs] at e1 e2 e3
   rw [hz] at e1 e2
